@@ -19,6 +19,7 @@
 
 #include <cstring>
 #include <iostream>
+#include <memory>
 #include <set>
 #include <streambuf>
 #include <thread>
@@ -162,11 +163,38 @@ struct Config
     std::string name;
     int sink = 0; // 0 stdout_mt, 1 StdErrThreaded
     std::vector<std::vector<Rec>> threads;
+    int pattern = 0; // 1: each thread has three records; the first and the third are named streams with non-nested lifetimes
 };
+
+// record X is opened, record Y is opened, X is completed and closed, a whole record is logged, Y is completed and closed
+// (one open record per request, kept on the heap): the thread's records must appear as r0, r1, r2
+template <typename L>
+static void non_nested(const std::vector<Rec>& rs)
+{
+    using S = decltype(L::info());
+    size_t h0 = rs[0].text.size() / 2, h2 = rs[2].text.size() / 2;
+    std::unique_ptr<S> x(new S(L::info()));
+    *x << rs[0].text.substr(0, h0);
+    std::unique_ptr<S> y(new S(L::info()));
+    *y << rs[2].text.substr(0, h2);
+    *x << rs[0].text.substr(h0);
+    x.reset();
+    L::info() << rs[1].text;
+    *y << rs[2].text.substr(h2);
+    y.reset();
+}
 
 static void body(int t, void* arg)
 {
     auto* c = static_cast<Config*>(arg);
+    if (c->pattern == 1)
+    {
+        if (c->sink == 0)
+            non_nested<LOut>(c->threads[t]);
+        else
+            non_nested<LErr>(c->threads[t]);
+        return;
+    }
     for (auto& r : c->threads[t])
     {
         if (c->sink == 0)
@@ -187,6 +215,7 @@ static std::vector<Config> configs()
         cs.push_back({ sn + " 3x2", sink, { { { 2, "a;" }, { 5, "bc;" } }, { { 3, "D;" }, { 5, "EF;" } }, { { 0, "x;" }, { 4, "yz1;" } } } });
         cs.push_back({ sn + " 2x1 long", sink, { { { 5, "abcde;" } }, { { 2, "VWXYZ;" } } } });
         cs.push_back({ sn + " 4x1", sink, { { { 2, "a;" } }, { { 5, "B2;" } }, { { 4, "c;" } }, { { 1, "dd;" } } } });
+        cs.push_back({ sn + " 2x3 non-nested streams", sink, { { { 2, "ab;" }, { 2, "c;" }, { 2, "de;" } }, { { 2, "VW;" }, { 2, "X;" }, { 2, "YZ;" } } }, 1 });
     }
     return cs;
 }
